@@ -7,7 +7,8 @@ while true; do
   [ "$line" = "STOP" ] && exit 0
   set -- $line
   ID=$1; WT=$2; shift 2
-  if [ ! -f /verif/seeded/$ID/confirm.json ]; then /verif/lib/seed_confirm.sh $ID $WT >> /tmp/seed_queue.log 2>&1; fi
+  BASE=${ID%%@*}
+  if [ ! -f /verif/seeded/$BASE/confirm.json ]; then /verif/lib/seed_confirm.sh $BASE $WT >> /tmp/seed_queue.log 2>&1; fi
   /verif/lib/seed_run.sh $ID "$@" >> /tmp/seed_queue.log 2>&1
   echo "$line" >> /tmp/seed_done.txt
 done
